@@ -921,6 +921,18 @@ func eng1NoRefusalByState(c *Ctx, a *engAnchors) {
 				if onlyErrorReturns(b.Succs[si], loops) {
 					refuses = true
 				}
+				// ... or ends the call without doing the work: the evaluation cannot be reached from that side
+				if t, _ := reach(fn, b.Succs[si].Instrs[0], func(in ssa.Instruction) bool { return in == firstEval }, nil, nil); t == nil && b.Succs[si].Instrs[0] != firstEval {
+					onlyReturns := true
+					if t2, _ := reach(fn, b.Succs[si].Instrs[0], func(in ssa.Instruction) bool { _, isRet := in.(*ssa.Return); return isRet }, nil, nil); t2 == nil {
+						if _, isRet := b.Succs[si].Instrs[0].(*ssa.Return); !isRet {
+							onlyReturns = false
+						}
+					}
+					if onlyReturns {
+						refuses = true
+					}
+				}
 			}
 			if !refuses {
 				continue
@@ -982,6 +994,6 @@ func eng1NoRefusalByState(c *Ctx, a *engAnchors) {
 				bad = "the refusal at " + p.InstrPos(iff) + " depends on something read from the knowledge base"
 			}
 		}
-		c.Check(bad == "", e.name+" / a call is refused only for its arguments or a failing data context, never for the state of the instance", p.Pos(fn.Pos()), fmt.Sprintf("%d refusals before the first evaluation, none reads the knowledge base", nGuards), bad+": whether a call on a reused instance runs at all then depends on how an earlier call ended (a claim that one way out forgot to give back refuses every later call), which a fresh instance never shows")
+		c.Check(bad == "", e.name+" / a call is refused only for its arguments or a failing data context, never for the state of the instance", p.Pos(fn.Pos()), fmt.Sprintf("%d ways out before the first evaluation, none depends on something read from the knowledge base", nGuards), bad+": whether a call on a reused instance runs at all then depends on how an earlier call ended (a claim that one way out forgot to give back refuses every later call), which a fresh instance never shows")
 	}
 }
